@@ -85,8 +85,7 @@ def replay_sdf_multi(data):
     mols = [_mol(d) for d in data["records"]]
     bad = []
     try:
-        text = "".join(m.to_sdf_string().rstrip("\n") + ("\n" if not m.to_sdf_string().endswith("$$$$") else "") +
-                       ("" if "$$$$" in m.to_sdf_string() else "$$$$\n") for m in mols)
+        text = "".join(m.to_sdf_string() for m in mols)        # the records as written, one after the other
         recs = parse_sdf_contents(text)
         if len(recs) != len(mols):
             bad.append("%d records read from a file of %d" % (len(recs), len(mols)))
@@ -355,7 +354,9 @@ def sdf_records(ctx):
             if nrec == 1:
                 whole = texts[0]
             else:
-                whole = "".join(t if t.endswith("$$$$\n") else (t.rstrip("\n") + "\n$$$$\n") for t in texts)
+                # the file a user makes of several molecules: the records as written, one after the other (each record is a run of
+                # complete lines ending with its '$$$$' line)
+                whole = "".join(texts)
             recs = ms.parse_sdf_contents(whole)
             return [Molecule.from_sdf_dict(r) for r in recs], dict(tm.reg), recs
         paths = ex.run(run_)
